@@ -366,11 +366,16 @@ def parse_evaluation_expression(tokens: TokenTree) -> EvaluationNode:  # noqa: C
             parse_evaluation_expression(x)
             for x in partition_tokens(TokenType.COMMA, cast("TokenTree", tokens[2]))
         ):
-            if isinstance(argument, HasAttribute):
+            if isinstance(argument, HasAttribute) and tokens[0].string not in (
+                "boolean",
+                "not",
+            ):
                 arguments.append(
                     AttributeValue(prefix=argument.prefix, name=argument.local_name)
                 )
             else:
+                # as argument of these two functions an attribute is tested for
+                # existence, an existing attribute may have an empty value
                 arguments.append(argument)
         try:
             return Function(tokens[0].string, arguments)
